@@ -844,7 +844,17 @@ func (s *session) readDisconnected(oldConn net.Conn, err error) {
 	case statusActiveClosing:
 	default:
 		verifGate("rd.beforeStatusWrite", s)
-		s.changeStatus(statusPassiveClosing)
+		if !s.tryChangeStatus(statusPassiveClosing, status) {
+			// the status changed since it was read: if a concurrent Close() has taken over,
+			// it owns the shutdown (status, close notification, disconnect hook)
+			switch status = s.getStatus(); status {
+			case statusPassiveClosed, statusActiveClosed, statusPassiveClosing:
+				return
+			case statusActiveClosing:
+			default:
+				s.changeStatus(statusPassiveClosing)
+			}
+		}
 	}
 	verifGate("rd.afterStatusWrite", s)
 
